@@ -549,7 +549,8 @@ impl<S: MSub> MSys<S> {
             if sub.is_empty() != model.is_empty() {
                 cx.violate(prop, "is_empty", format!("is_empty() = {} but the model holds {} keys", sub.is_empty(), model.len()));
             }
-            for q in 0..=self.probes() {
+            // ascending, then descending: a result must not depend on which lookup came before it
+            for q in (0..=self.probes()).chain((0..=self.probes()).rev()) {
                 let exp = model.get(&q).map(|b| (q, self.code(q, *b)));
                 let got = sub.get(q);
                 if got != exp {
@@ -559,7 +560,8 @@ impl<S: MSub> MSys<S> {
             }
         }
         if self.f.o_handle {
-            for p in 0..=self.probes() {
+            // ascending, then descending (query-order independence)
+            for p in (0..=self.probes()).chain((0..=self.probes()).rev()) {
                 let h = sub.fil(p);
                 let h2 = sub.fil_by(p);
                 match Self::pred(model, p) {
